@@ -130,6 +130,36 @@ def run(ctx):
             c = dict(c, prefix_paths=[], expect=("generic",))
             failures.append((c, res, bad))
 
+    # P4 with channel_request_lookahead >= 1 and a worker that is busy elsewhere: the refused message is
+    # queued as an error request, the channel stays readable (len(requests) <= lookahead) and goes on
+    # consuming input after the read that crossed the limit -- open known finding kf_c06_lookahead_reads.
+    # What must still hold, and is reported as a violation if it does not: a read is accepted only while at
+    # most `lookahead` requests are queued (one read may complete several); once the worker runs, P1 P2 P3 P5 as for lookahead 0 (one error response, close,
+    # nothing behind the refused message executed).
+    la_stats = {"runs": 0, "reads_after_the_crossing_read": {}, "max_queued": 0}
+    for c in all_cases:
+        if c.get("cross_read") is None or c["expect"][0] != "refuse":
+            continue
+        for la in (1, 3):
+            res = L.drive(c["mh"], c["mb"], c["reads"], lazy_worker=True, channel_request_lookahead=la)
+            evaluations += 1
+            la_stats["runs"] += 1
+            extra = res["reads_accepted"] - (c["cross_read"] + 1)
+            la_stats["max_queued"] = max(la_stats["max_queued"], res["max_queued"])
+            bad = [b for b in L.judge(c, res) if b[0] != "P4"]
+            if res["max_queued"] > la:
+                bad.append(("P4", "a read was accepted with %d requests queued, channel_request_lookahead=%d" % (res["max_queued"], la)))
+            if bad:
+                failures.append((dict(c, kind=c["kind"] + "+lookahead%d" % la), res, bad))
+            elif extra > 0:
+                k = str(min(extra, 5)) + ("+" if extra > 5 else "")
+                la_stats["reads_after_the_crossing_read"][k] = la_stats["reads_after_the_crossing_read"].get(k, 0) + 1
+                old = kf_seen.get("kf_c06_lookahead_reads")
+                if old is None or sum(len(r) for r in c["reads"]) < sum(len(r) for r in old[0]["reads"]):
+                    kf_seen["kf_c06_lookahead_reads"] = (dict(c, kind=c["kind"] + "+lookahead%d" % la), res,
+                        [("P4", "channel_request_lookahead=%d, worker busy: %d reads accepted, limit crossed in read %d"
+                          % (la, res["reads_accepted"], c["cross_read"]))])
+
     def replay_of(c, res, bad):
         stream = b"".join(c["reads"])
         d = {"kind": "limit", "case_kind": c["kind"], "mh": c["mh"], "mb": c["mb"], "recv": c["recv"],
@@ -159,6 +189,7 @@ def run(ctx):
                    % (c["kind"], c["mh"], c["mb"], c["recv"], "; ".join(b[1] for b in bad)[:300]), replay_of(c, res, bad))
     ctx.oblige("search: every oversize / malformed stream is refused as C06 says on the real channel + ErrorTask (P1..P5, outside open known-finding classes)",
                not failures, "" if not failures else "%d failing cases" % len(failures))
+    samples.append({"suite": "limit-search under lookahead with a busy worker", **la_stats})
     samples.append({"suite": "limit-search", "cases_by_kind": kinds, "expected_outcomes": outcomes,
                     "error_statuses_seen": {str(k): v for k, v in codes.items()},
                     "recv_sizes": {str(k): v for k, v in sorted(recvs.items())}})
@@ -244,6 +275,16 @@ def replay(data):
         return 1
     s = bytes.fromhex(data["stream_hex"])
     reads = L.split_by(s, data["recv"])
+    import re as _re
+    m_la = _re.search(r"\+lookahead(\d+)$", data.get("case_kind") or "")
+    if m_la:
+        la = int(m_la.group(1))
+        res = L.drive(data["mh"], data["mb"], reads, lazy_worker=True, channel_request_lookahead=la)
+        extra = res["reads_accepted"] - ((data.get("cross_read") or 0) + 1)
+        print("channel_request_lookahead=%d, worker busy: %d reads accepted, limit crossed in read %s, max queued %d"
+              % (la, res["reads_accepted"], data.get("cross_read"), res["max_queued"]))
+        print("calls=%r raised=%r closed=%r wire=%r" % (res["calls"], res["raised"], res["closed"], res["wire"][:120]))
+        return 1 if extra > 0 or res["max_queued"] > la else 0
     res = L.drive(data["mh"], data["mb"], reads)
     case = {"mh": data["mh"], "mb": data["mb"], "reads": reads, "prefix_paths": data["prefix_paths"],
             "expect": tuple(tuple(x) if isinstance(x, list) else x for x in data["expect"]),
